@@ -95,6 +95,28 @@ def energy_rule(chk, repo, rid, q):
     return 3
 
 
+def coverage_rule(chk, repo, rid, q):
+    """every sweep poses a local problem at every position of the chain (two-site: on every pair of neighbours)"""
+    from .. import sweep as sw
+    from ..sweep import L, ONE, ZERO
+    from ..affine import Affine
+    fi = repo.func(q)
+    two = q.endswith('twosite')
+    for label, m, rep in sr.analyse(repo, q):
+        if getattr(m, 'partial', False):
+            continue
+        blocks = sw.step_blocks(m.schedule)
+        if blocks is None:
+            raise AnalysisError(f'{q}: loop over the sweeps not found')
+        segs = sw.segments(blocks)
+        kind = 'H2' if two else 'H1'
+        hi = (m.Lv - Affine.const(2)) if two else (m.Lv - ONE)
+        ok, detail = sw.check_cover(segs, kind, ZERO, hi, m.base_facts)
+        chk.ob(rid, where(repo, fi, fi.node), f'{fi.name} [{label}]: every sweep optimises every '
+               f'{"pair of neighbouring sites (i, i+1), i in" if two else "site of"} [0, {hi}] at least once', ok, detail,
+               key=f'{rid}|{q}|{label}|cover')
+
+
 def run(chk, repo, tier):
     eng = Engine(repo)
     chk.rule('C10.R1', 'the Hamiltonian is never written: may-write set of both DMRG routines is contained in `psi`')
@@ -104,6 +126,8 @@ def run(chk, repo, tier):
                        'orthogonality centre of a mixed-canonical state; loop invariants derived, checked inductive and '
                        're-established by every sweep; the sweep ends with a right-QR of the leftmost tensor whose R '
                        'factor is discarded (normalisation of the state)')
+    chk.rule('C10.R6', 'coverage: in every sweep the local problems visit every site (two-site: every pair of neighbours) '
+                       'of the chain at least once, for every L of the domain (union of the loop ranges, affine in L)')
     chk.rule('C10.R4', 'the energy recorded per sweep is the Ritz value of the last local problem of that sweep')
     n3 = 0
     for q in ROUTINES:
@@ -135,6 +159,7 @@ def run(chk, repo, tier):
                    f'the leftmost tensor, its 1x1 factor discarded', ok and disc, '', key=f'C10.R3|{q}|{label}|final-norm')
             n3 += 1
         energy_rule(chk, repo, 'C10.R4', q)
+        coverage_rule(chk, repo, 'C10.R6', q)
     start_vector_rule(chk, repo, 'C10.R2')
     from . import support
     support.kernel_rules(chk, repo, 'C10.R5', ['apply_local_hamiltonian', 'contraction_operator_step_left',
